@@ -2,6 +2,7 @@ package typesystem
 
 import (
 	"context"
+	"errors"
 
 	openfgav1 "github.com/openfga/api/proto/openfga/v1"
 
@@ -69,7 +70,7 @@ func verifK19Doc(rels map[string]*openfgav1.Userset, meta map[string]*openfgav1.
 	}
 }
 
-const VerifK19HostileModels = 34
+const VerifK19HostileModels = 36
 
 func verifK19Hostile(k int) *openfgav1.AuthorizationModel {
 	R := func(kv ...any) map[string]*openfgav1.Userset {
@@ -170,6 +171,14 @@ func verifK19Hostile(k int) *openfgav1.AuthorizationModel {
 		m := verifK19Doc(R("viewer", verifK19This()), nil)
 		m.Conditions = map[string]*openfgav1.Condition{"c": nil} // nil condition
 		return m
+	case 34:
+		m := verifK19Doc(R("viewer", verifK19This()), nil)
+		m.Conditions = map[string]*openfgav1.Condition{"": nil} // nil condition under the empty key (its absent name equals the key)
+		return m
+	case 35:
+		m := verifK19Doc(R("viewer", verifK19This()), nil)
+		m.Conditions = map[string]*openfgav1.Condition{"c": nil, "": nil}
+		return m
 	default:
 		m := verifK19Doc(R("viewer", verifK19This()), nil)
 		m.Conditions = map[string]*openfgav1.Condition{"c": {Name: "other", Expression: "x < 1"}} // key/name mismatch, undeclared parameter
@@ -181,7 +190,13 @@ func VerifK19HostileModel() {
 	if vt.Symbolic() {
 		// CEL compilation is library code outside the engine's reach (runs for real natively)
 		vt.Stub("(*github.com/openfga/openfga/internal/condition.EvaluableCondition).Compile",
-			func(e *condition.EvaluableCondition) error { return nil })
+			func(e *condition.EvaluableCondition) error {
+				// like the real compile(), the stand-in reads the expression and the name of the embedded condition
+				if src := e.Expression + e.Name; len(src) < 0 {
+					return errors.New("unreachable")
+				}
+				return nil
+			})
 	}
 	k := vt.ParamInt("k", -1)
 	if k < 0 {
